@@ -175,6 +175,14 @@ static void vf_puthex(struct vf_ctx *c, const void *p, size_t n)
 	}
 }
 
+/* measurement builds (tools/scanner_coverage.sh): _exit() would lose the gcov counters */
+#ifdef VF_GCOV
+extern void __gcov_dump(void);
+#define VF_GCOV_DUMP() __gcov_dump()
+#else
+#define VF_GCOV_DUMP() ((void) 0)
+#endif
+
 static void vf_finish(struct vf_ctx *c, int code) __attribute__((noreturn));
 static void vf_finish(struct vf_ctx *c, int code)
 {
@@ -185,6 +193,7 @@ static void vf_finish(struct vf_ctx *c, int code)
 			memcpy(c->log + c->loglen, b, (size_t) n), c->loglen += (size_t) n;
 	}
 	vf_flush_all();
+	VF_GCOV_DUMP();
 	_exit(code);
 }
 
